@@ -358,6 +358,12 @@ type c18Server struct {
 	served chan error // result of ListenAndServe*
 }
 
+func (s *c18Server) close() {
+	if s.srv != nil {
+		s.srv.Close()
+	}
+}
+
 // start brings one listener of the kind up through the package's own entry point.
 func (w *c18World) start(name, fixedAddr string) (*c18Server, error) {
 	var lastErr error
@@ -528,6 +534,23 @@ func (w *c18World) launch(s *c18Server, it c18Item, id, flavour string, timeout 
 				r.fail(err)
 				return
 			}
+			if it.Dur == "mute" {
+				// half-close: the client has nothing more to say; the upstream never answers
+				if tc, ok := rw.(*tls.Conn); ok {
+					tc.CloseWrite()
+				}
+				c.(*net.TCPConn).CloseWrite()
+				select {
+				case <-w.up.mutedCh(id): // the EOF went through the tunnel: this is the state that matters
+					close(r.established)
+				case <-ctx.Done():
+					r.fail(ctx.Err())
+					return
+				}
+				io.Copy(io.Discard, c)
+				r.fail(fmt.Errorf("tunnel closed"))
+				return
+			}
 			c18ReadWork(r, rw)
 		case "grpc":
 			cc, err := grpc.NewClient("passthrough:///"+s.addr, grpc.WithTransportCredentials(insecure.NewCredentials()))
@@ -568,7 +591,8 @@ func (w *c18World) launch(s *c18Server, it c18Item, id, flavour string, timeout 
 }
 
 // flavour picks the protocol an item speaks on a server of the given kind.
-func c18Flavour(kind string, nth int, seed int64) string {
+func c18Flavour(name string, nth int, seed int64) string {
+	kind := c18Base(name)
 	switch kind {
 	case "http", "https", "tcp", "grpc":
 		return kind
@@ -627,7 +651,7 @@ func (w *c18World) play(sc *c18Scenario, seed int64) (res c18Result) {
 		// whatever happened: nothing of this scenario may stay behind
 		close(w.up.stopCh())
 		for _, s := range srvs {
-			s.srv.Close()
+			s.close()
 		}
 		Close()
 		for _, s := range srvs {
@@ -638,8 +662,38 @@ func (w *c18World) play(sc *c18Scenario, seed int64) (res c18Result) {
 			}
 		}
 	}()
+	// listeners "k~2" share their port with another listener of the scenario, on 127.0.0.2
+	fixed := map[string]string{}
+	var plain, twins []string
 	for _, k := range kinds {
-		s, err := w.start(k)
+		if c18Twin(k) {
+			twins = append(twins, k)
+		} else {
+			plain = append(plain, k)
+		}
+	}
+	if len(twins) > len(plain) {
+		res.setup = "scenario has more ~2 listeners than listeners to share a port with"
+		return
+	}
+	for i, k := range twins {
+		for try := 0; try < 20 && fixed[k] == ""; try++ {
+			a, err := c18FreeAddr()
+			if err != nil {
+				res.setup = err.Error()
+				return
+			}
+			if t, ok := c18TwinAddr(a); ok {
+				fixed[plain[i]], fixed[k] = a, t
+			}
+		}
+		if fixed[k] == "" {
+			res.setup = "no port free on both 127.0.0.1 and 127.0.0.2"
+			return
+		}
+	}
+	for _, k := range append(plain, twins...) {
+		s, err := w.start(k, fixed[k])
 		if err != nil {
 			res.setup = err.Error()
 			return
@@ -679,7 +733,17 @@ func (w *c18World) play(sc *c18Scenario, seed int64) (res c18Result) {
 				continue
 			}
 			nth[it.Srv]++
-			r := w.launch(srvs[it.Srv], it, fmt.Sprintf("i%d-%d", sc.Idx, i), c18Flavour(it.Srv, nth[it.Srv], seed), 0)
+			fl := c18Flavour(it.Srv, nth[it.Srv], seed)
+			if it.Dur == "mute" {
+				if fl == "https" {
+					fl = "sni"
+				}
+				if fl != "tcp" && fl != "sni" {
+					res.setup = fmt.Sprintf("mute work on %s, which carries no tunnels", it.Srv)
+					return
+				}
+			}
+			r := w.launch(srvs[it.Srv], it, fmt.Sprintf("i%d-%d", sc.Idx, i), fl, 0)
 			runs = append(runs, r)
 			batch = append(batch, r)
 		}
@@ -755,7 +819,7 @@ func (w *c18World) play(sc *c18Scenario, seed int64) (res c18Result) {
 		case <-time.After(bound):
 			blockedBy = "unknown"
 			for _, k := range kinds {
-				srvs[k].srv.Close()
+				srvs[k].close()
 				select {
 				case <-done:
 					blockedBy = k
@@ -782,6 +846,14 @@ func (w *c18World) play(sc *c18Scenario, seed int64) (res c18Result) {
 		find("bounded-return", map[string]any{"blocked_by": blockedBy, "open_work_on": strings.Join(openKinds, ",")},
 			"Shutdown(%v) had not returned after %v (wait + %v slack); returned after %v; held by: %s; open work on: %s",
 			wait, bound, c18Slack, res.shutdown.Round(time.Millisecond), blockedBy, strings.Join(openKinds, ","))
+	}
+
+	// ---- Shutdown has returned: fabio's main returns and the process exits.  Whatever a listener is
+	// still doing ends here.
+	if res.returned {
+		for _, s := range srvs {
+			s.close()
+		}
 	}
 
 	// ---- probes: refused, or closed without being served
@@ -864,7 +936,8 @@ func TestVerifC18(t *testing.T) {
 		t.Fatal(err)
 	}
 	var played, items, asserted, skipped, probes, setups, leaks, nontrivial int64
-	var selfTotal, selfRejected int64
+	var selfTotal, selfRejected, twinSkipped, twinPlayed int64
+	twinOK := c18TwinOK()
 	var maxShutdown time.Duration
 	var samples []string
 	seen := map[uint64]bool{}
@@ -872,6 +945,17 @@ func TestVerifC18(t *testing.T) {
 		sc := &scs[i]
 		if sc.Idx == 0 {
 			sc.Idx = i + 1
+		}
+		hasTwin := false
+		for _, k := range sc.Kinds {
+			hasTwin = hasTwin || c18Twin(k)
+		}
+		if hasTwin && !twinOK {
+			twinSkipped++ // 127.0.0.2 cannot be bound here: nothing to say about listeners that share a port
+			continue
+		}
+		if hasTwin {
+			twinPlayed++
 		}
 		res := w.play(sc, seed)
 		if res.setup != "" && sc.Selftest == "" {
@@ -922,6 +1006,6 @@ func TestVerifC18(t *testing.T) {
 	verifx.Summary(map[string]any{"scenarios": played, "items": items, "asserted": asserted, "skipped": skipped,
 		"probes": probes, "setup_failures": setups, "leaks": leaks, "distinct_nontrivial": nontrivial,
 		"max_shutdown_ms": maxShutdown.Milliseconds(), "selftests": selfTotal, "selftests_rejected": selfRejected,
-		"registry_left": left, "samples": samples})
+		"registry_left": left, "samples": samples, "twin_scenarios": twinPlayed, "twin_skipped": twinSkipped})
 	_ = atomic.LoadInt64
 }
